@@ -1436,6 +1436,38 @@ def _int(I, args, kwargs):
     return NotImplemented
 
 
+def round_half_even_to_double(n):
+    """the integer value of float(n) for an int n with |n| <= 2**64 (concrete twin of int_to_double, used by the self-test)"""
+    a = abs(n)
+    r = a
+    for k in range(1, 12):
+        m = 2 ** k
+        if 2 ** (52 + k) <= a < 2 ** (53 + k) or (k == 11 and a == 2 ** 64):
+            q, rem = divmod(a, m)
+            up = rem > m // 2 or (rem == m // 2 and q % 2 == 1)
+            r = (q + (1 if up else 0)) * m
+    return r if n >= 0 else -r
+
+
+def int_to_double(I, t):
+    """the integer value of float(t): exact up to 2**53 (lemma int_float_roundtrip), round-half-to-even to a multiple of 2**k for
+    2**(52+k) <= |t| < 2**(53+k), k = 1..11; larger magnitudes are cut"""
+    if isinstance(t, int):
+        return int(float(t)) if abs(t) < 2 ** 1000 else t
+    I.cut(And(t >= -2 ** 64, t <= 2 ** 64), "int -> float conversion modelled for |n| <= 2**64 (exact up to 2**53, round-half-even above)")
+    a = If(t >= 0, t, -t)
+    r = a
+    for k in range(1, 12):
+        m = 2 ** k
+        q = a / m
+        rem = a % m
+        up = Or(rem > m // 2, And(rem == m // 2, q % 2 == 1))
+        val = (q + If(up, 1, 0)) * m
+        cond = And(a >= 2 ** (52 + k), a < 2 ** (53 + k)) if k < 11 else And(a >= 2 ** 63, a <= 2 ** 64)
+        r = If(cond, val, r)
+    return If(t >= 0, r, -r)
+
+
 @func_model(float)
 def _float(I, args, kwargs):
     if not args:
@@ -1444,14 +1476,11 @@ def _float(I, args, kwargs):
     if isinstance(v, SymFloat):
         return v
     if isinstance(v, (SymInt, SymBool)):
-        t = iterm(v)
-        I.cut(And(t >= -2 ** 53, t <= 2 ** 53), "int -> float conversion modelled as exact for |n| <= 2**53 (lemma int_float_roundtrip)")
-        return SymFloat(t)
+        return SymFloat(int_to_double(I, iterm(v)))
     if isinstance(v, SymStr):
         t = sstr.rendered_int_of(v)
         if t is not None:
-            I.cut(And(t >= -2 ** 53, t <= 2 ** 53), "int -> float conversion modelled as exact for |n| <= 2**53 (lemma int_float_roundtrip)")
-            return SymFloat(t)
+            return SymFloat(int_to_double(I, t))
         # render(t) + ".0"
         if len(v.segs) >= 2 and v.segs[-1] == ".0":
             t = sstr.rendered_int_of(SymStr(v.segs[:-1]))
